@@ -43,7 +43,8 @@ def gates(tier):
 def gen_case(rng, spec):
     from rv.gen import automata as GA
 
-    m = GA.gen_wfsa(rng, max_states=5, alphabet=["a", "b"][: rng.randint(1, 2)], max_arcs=8, names=None)
+    # tiny=False: "well-conditioned weights" - the floating-point tests use absolute tolerances around 1e-8
+    m = GA.gen_wfsa(rng, max_states=5, alphabet=["a", "b"][: rng.randint(1, 2)], max_arcs=8, names=None, tiny=False)
     m["names"] = list(range(m["n"]))
     if rng.random() < 0.3:  # negative weights
         for arc in m["arcs"]:
